@@ -51,8 +51,7 @@ def plan(tier, seed):
     # systematic: every operation in every reachable state of a small
     # universe (vmon/explore.py)
     specs += explore.specs_for(ID, tier, seed, ['OO', 'II'],
-                               ['OO', 'II', 'fs', 'LF', 'QO', 'UU', 'OI',
-                                'IO'])
+                               ['OO', 'II', 'fs', 'LF'])
     return specs
 
 
